@@ -82,7 +82,7 @@ func Load(dir string, tags string) (*Prog, error) {
 	if len(pkgs) < 2 {
 		return nil, fmt.Errorf("expected at least 2 packages under %s, got %d", dir, len(pkgs))
 	}
-	prog, spkgs := ssautil.AllPackages(pkgs, ssa.BuilderMode(0))
+	prog, spkgs := ssautil.AllPackages(pkgs, ssa.InstantiateGenerics)
 	prog.Build()
 
 	p := &Prog{Dir: dir, Pkgs: pkgs, SSA: prog, Fset: prog.Fset}
@@ -117,8 +117,11 @@ func (p *Prog) collectFuncs() {
 		if f == nil || seen[f] || f.Blocks == nil {
 			return
 		}
-		if f.Synthetic != "" && !strings.HasPrefix(f.Name(), "init") {
+		if f.Synthetic != "" && !strings.HasPrefix(f.Name(), "init") && !IsInstance(f) {
 			return
+		}
+		if f.TypeParams().Len() > 0 && len(f.TypeArgs()) == 0 {
+			return // a generic function is analysed through its instantiations (monomorphised bodies)
 		}
 		seen[f] = true
 		p.Funcs = append(p.Funcs, f)
@@ -150,7 +153,39 @@ func (p *Prog) collectFuncs() {
 			}
 		}
 	}
+	// instantiations of the two packages' generic functions, found at their call sites
+	for i := 0; i < len(p.Funcs); i++ {
+		for _, b := range p.Funcs[i].Blocks {
+			for _, in := range b.Instrs {
+				if c, ok := in.(ssa.CallInstruction); ok {
+					if cal := c.Common().StaticCallee(); cal != nil && IsInstance(cal) {
+						if pk := PkgOf(cal); pk == p.Arg || pk == p.Graph {
+							add(cal)
+						}
+					}
+				}
+			}
+		}
+	}
 	sort.SliceStable(p.Funcs, func(i, j int) bool { return p.Funcs[i].Pos() < p.Funcs[j].Pos() })
+}
+
+// IsInstance reports whether f is an instantiation of a generic function.
+func IsInstance(f *ssa.Function) bool { return f != nil && f.Origin() != nil && f.Origin() != f }
+
+// PkgOf is the package a function belongs to; an instantiation belongs to the package of its generic function, a
+// function literal to that of its outermost enclosing function.
+func PkgOf(f *ssa.Function) *ssa.Package {
+	if f == nil {
+		return nil
+	}
+	for f.Parent() != nil {
+		f = f.Parent()
+	}
+	if f.Pkg == nil && f.Origin() != nil {
+		return f.Origin().Pkg
+	}
+	return f.Pkg
 }
 
 func (p *Prog) indexCalls() {
@@ -184,10 +219,8 @@ func (p *Prog) InTarget(f *ssa.Function) bool {
 	if f == nil {
 		return false
 	}
-	for f.Parent() != nil {
-		f = f.Parent()
-	}
-	return f.Pkg == p.Arg || f.Pkg == p.Graph
+	pk := PkgOf(f)
+	return pk != nil && (pk == p.Arg || pk == p.Graph)
 }
 
 // Pos renders a position as file:line relative to the repository.
@@ -226,12 +259,9 @@ func FuncName(f *ssa.Function) string {
 	if f == nil {
 		return "<nil>"
 	}
-	s := f.RelString(f.Pkg.Pkg)
-	if f.Pkg == nil {
-		s = f.String()
-	}
-	if f.Parent() != nil {
-		s = f.RelString(f.Parent().Pkg.Pkg)
+	s := f.String()
+	if pk := PkgOf(f); pk != nil {
+		s = f.RelString(pk.Pkg)
 	}
 	s = strings.ReplaceAll(s, "(*", "")
 	s = strings.ReplaceAll(s, "(", "")
